@@ -323,13 +323,7 @@ def eval_spec(I, expr, env, module):
 
 
 class VCtx(Ctx):
-    def __init__(self, prefix=()):
-        super().__init__(prefix)
-        self.axioms = []
-
-    def global_axiom(self, z):
-        self.axioms.append(z)
-        self.pc.append(z)
+    pass
 
 
 def _params_env(ctx, fi, cfg):
@@ -407,13 +401,27 @@ def verify(spec, registry=None, max_paths=400, only_clauses=None):
             ctx = VCtx(prefix)
             I = Interp(ctx, registry or {})
             tag = f"@cfg{ci}p{npaths}"
+            env = {}
             try:
                 env = _params_env(ctx, fi, cfg)
                 ghost = {}
+                deferred = []
+                reqs = []
+                for r in spec.get("requires", []):
+                    if isinstance(r, tuple):  # (predicate over the configuration, expression)
+                        if r[0](cfg):
+                            reqs.append(r[1])
+                    else:
+                        reqs.append(r)
+                for r in reqs:  # requires that do not need ghosts first (they may rule the cfg out)
+                    try:
+                        ctx.assume(eval_spec(I, r, env, mod))
+                    except (Unsupported, PyRaise):
+                        deferred.append(r)
                 for gname, gexpr in (spec.get("ghost") or {}).items():
                     ghost[gname] = eval_spec(I, gexpr, {**env, **ghost}, mod)
                 env_all = {**env, **ghost}
-                for r in spec.get("requires", []):
+                for r in deferred:
                     ctx.assume(eval_spec(I, r, env_all, mod))
                 if not ctx.feasible([]):
                     continue
@@ -459,13 +467,6 @@ def verify(spec, registry=None, max_paths=400, only_clauses=None):
                     for cname, cexpr in spec.get("ensures_on_raise", []):
                         g = eval_spec(I, cexpr, post_env, mod)
                         ctx.oblige(f"{base}/{cname}", g, {"clause": cname, "kind": "ensures"})
-                for ob in ctx.obligations:
-                    if not ob["name"].startswith(prop + "/"):
-                        ob["name"] = f"{prop}/{ob['name']}"
-                    ob["name_path"] = ob["name"] + tag
-                    ob["cfg"] = describe_cfg(cfg)
-                    ob["env"] = env
-                    vcs.append(ob)
             except PathEnd:
                 pass
             except Unsupported as u:
@@ -474,6 +475,13 @@ def verify(spec, registry=None, max_paths=400, only_clauses=None):
                 vcs.append(dict(name=f"{base}/extract{tag}", unsupported=str(u), cfg=describe_cfg(cfg)))
             except RecursionError:
                 vcs.append(dict(name=f"{base}/unsupported{tag}", unsupported="recursion limit", cfg=describe_cfg(cfg)))
+            for ob in ctx.obligations:
+                if not ob["name"].startswith(prop + "/"):
+                    ob["name"] = f"{prop}/{ob['name']}"
+                ob["name_path"] = ob["name"] + tag
+                ob["cfg"] = describe_cfg(cfg)
+                ob["env"] = env
+                vcs.append(ob)
             out["trusted"] |= ctx.trusted
             out["inlined"] |= I.called
             out["used_contracts"] |= I.used_contracts
@@ -590,11 +598,17 @@ def apply_contract_at_call(I, fi, spec, args, kwargs, self_obj):
     env_all = {**env, **ghost}
     where = ctx.where[-1]
     for k, r in enumerate(spec.get("requires", [])):
+        if isinstance(r, tuple):
+            continue  # configuration-specific requires are not checked at call sites (noted as assumption)
         ctx.oblige(f"{where}/call:{fi.qualname}/requires[{k}]", eval_spec(I, r, env_all, mod), {"callsite": True})
     for exc, cond in (spec.get("raises") or {}).items():
         c = eval_spec(I, cond, env_all, mod)
         if ctx.branch(c):
             raise PyRaise(exc, f"by contract of {fi.qualname}")
+    for exc in spec.get("may_raise_nondet") or []:
+        b = ctx.fresh(f"{fi.name}.raises.{exc}", "bool")
+        if ctx.branch(b):
+            raise PyRaise(exc, f"may be raised by {fi.qualname} (contract)")
     rs = spec.get("returns")
     if rs is None:
         raise Unsupported(f"contract of {fi.qualname} has no `returns` sort for modular use")
